@@ -68,6 +68,20 @@ def import_repo() -> None:
     logging.disable(logging.CRITICAL)
 
 
+class default_recursion_limit:
+    """Context manager: the interpreter's default recursion limit (1000) around a library call.  The harness itself
+    runs with a larger limit for its own recursive oracles; the library must not need that."""
+
+    def __enter__(self):
+        self._old = sys.getrecursionlimit()
+        sys.setrecursionlimit(1000)
+        return self
+
+    def __exit__(self, *exc):
+        sys.setrecursionlimit(self._old)
+        return False
+
+
 class debug_logging:
     """Context manager: the process configuration 'debug logging switched on with a handler that formats every
     record' (what `logging.basicConfig(level=DEBUG)` - which numba_scfg.rendering itself calls on import - gives a
